@@ -137,16 +137,85 @@ func leaves(t types.Type) []Leaf {
 var byteRe = regexp.MustCompile(`\bbyte\b`)
 var runeRe = regexp.MustCompile(`\brune\b`)
 
-// typeName is the canonical name of a type in component names (byte/rune are aliases).
+// typeName is the canonical name of a type in component names: aliases are resolved at every level
+// (type BatchConfig = shutterevents.BatchConfig; byte/rune), so that the same memory is always addressed
+// through the same component.
 func typeName(t types.Type) string {
-	s := types.TypeString(t, func(p *types.Package) string { return p.Name() })
-	if strings.Contains(s, "byte") {
-		s = byteRe.ReplaceAllString(s, "uint8")
+	var b strings.Builder
+	writeCanonType(&b, t, 0)
+	return b.String()
+}
+
+func writeCanonType(b *strings.Builder, t types.Type, depth int) {
+	if depth > 8 {
+		b.WriteString("...")
+		return
 	}
-	if strings.Contains(s, "rune") {
-		s = runeRe.ReplaceAllString(s, "int32")
+	t = types.Unalias(t)
+	switch x := t.(type) {
+	case *types.Basic:
+		switch x.Kind() {
+		case types.Uint8:
+			b.WriteString("uint8")
+		case types.Int32:
+			b.WriteString("int32")
+		default:
+			b.WriteString(x.Name())
+		}
+	case *types.Named:
+		if x.Obj().Pkg() != nil {
+			b.WriteString(x.Obj().Pkg().Name())
+			b.WriteByte('.')
+		}
+		b.WriteString(x.Obj().Name())
+		if ta := x.TypeArgs(); ta != nil && ta.Len() > 0 {
+			b.WriteByte('[')
+			for i := 0; i < ta.Len(); i++ {
+				if i > 0 {
+					b.WriteByte(',')
+				}
+				writeCanonType(b, ta.At(i), depth+1)
+			}
+			b.WriteByte(']')
+		}
+	case *types.Pointer:
+		b.WriteByte('*')
+		writeCanonType(b, x.Elem(), depth+1)
+	case *types.Slice:
+		b.WriteString("[]")
+		writeCanonType(b, x.Elem(), depth+1)
+	case *types.Array:
+		fmt.Fprintf(b, "[%d]", x.Len())
+		writeCanonType(b, x.Elem(), depth+1)
+	case *types.Map:
+		b.WriteString("map[")
+		writeCanonType(b, x.Key(), depth+1)
+		b.WriteByte(']')
+		writeCanonType(b, x.Elem(), depth+1)
+	case *types.Chan:
+		b.WriteString("chan ")
+		writeCanonType(b, x.Elem(), depth+1)
+	case *types.Struct:
+		b.WriteString("struct{")
+		for i := 0; i < x.NumFields(); i++ {
+			if i > 0 {
+				b.WriteString("; ")
+			}
+			b.WriteString(x.Field(i).Name())
+			b.WriteByte(' ')
+			writeCanonType(b, x.Field(i).Type(), depth+1)
+		}
+		b.WriteByte('}')
+	default:
+		s := types.TypeString(t, func(p *types.Package) string { return p.Name() })
+		if strings.Contains(s, "byte") {
+			s = byteRe.ReplaceAllString(s, "uint8")
+		}
+		if strings.Contains(s, "rune") {
+			s = runeRe.ReplaceAllString(s, "int32")
+		}
+		b.WriteString(s)
 	}
-	return s
 }
 
 // ---------------------------------------------------------------------------------------------
